@@ -235,6 +235,20 @@ def constraints_for(ix, body, sym, block):
         while isinstance(e, tuple) and e[0] == "un" and e[1] == "Not":
             e = e[2]
             neg = not neg
+        # `matches!(x, Pat)` lowers to a bool temporary set in the arms of a switch on x: translate back
+        fl = resolve_flag(ix, body, sym, t["discr"]) if t.get("discr_ty") == "bool" else None
+        if fl is not None:
+            fe, by_val, fblock = fl
+            want = set()
+            for v in leading:
+                if v == "otherwise":
+                    bools = [x for x in (0, 1) if x not in [a[0] for a in t["arms"]]]
+                else:
+                    bools = [v]
+                for bv in bools:
+                    want |= by_val.get(bool(bv) != neg, set())
+            out.append((mir.expr_str(fe), frozenset(want), fblock, fe))
+            continue
         names = None
         ty = discr_type_of_switch(body, d)
         if ty:
@@ -255,3 +269,58 @@ def constraints_for(ix, body, sym, block):
             vals = [bool(v) != neg if isinstance(v, int) else v for v in vals]
         out.append((mir.expr_str(e), frozenset(vals), d, e))
     return out
+
+
+def resolve_flag(ix, body, sym, discr_op):
+    """A bool local assigned constants in the arms of one switch on expression E (the `matches!` idiom):
+    returns (E, {True: value names reaching the `true` assignments, False: ...}, switch block) or None."""
+    p = op_place(discr_op)
+    if p is None or not mir.is_local(p):
+        return None
+    l = p["l"]
+    for _ in range(3):
+        sd = body.single_def(l)
+        if sd and sd[2].get("k") == "use" and op_place(sd[2]["a"]) is not None and mir.is_local(op_place(sd[2]["a"])):
+            l = op_place(sd[2]["a"])["l"]
+        else:
+            break
+    defs = body.defs().get(l, [])
+    if len(defs) < 2 or any(d[2].get("k") != "use" or const_int(d[2]["a"]) not in (0, 1) for d in defs):
+        return None
+    blocks = {d[0]: bool(const_int(d[2]["a"])) for d in defs}
+    # the switch whose arms lead to those blocks
+    cands = None
+    for b in blocks:
+        ds = {x for x in (body.dom().get(b) or set()) if x != b and x >= 0 and body.blocks[x].term["k"] == "switch"}
+        cands = ds if cands is None else cands & ds
+    for sw in sorted(cands or [], reverse=True):
+        t = body.blocks[sw].term
+        if t.get("discr_ty") == "bool":
+            continue
+        arms = [(a[0], a[1]) for a in t["arms"]] + [("otherwise", t["otherwise"])]
+        ty = discr_type_of_switch(body, sw)
+        names = variant_names(ix, ty) if ty else None
+        explicit = [a[0] for a in t["arms"]]
+        by_val = {True: set(), False: set()}
+        ok = True
+        for v, tgt in arms:
+            reach = body.reachable_from(tgt, removed={sw}, include_start=True)
+            hit = {blocks[b] for b in blocks if b in reach and not any(o != b and o in reach and body.dominates(o, b) for o in blocks)}
+            first = set()
+            for b in blocks:
+                if b in reach:
+                    first.add(blocks[b])
+            if len(first) != 1:
+                ok = False
+                break
+            val = next(iter(first))
+            if v == "otherwise":
+                if names:
+                    by_val[val] |= {n for dv, n in names.items() if dv not in explicit}
+                else:
+                    by_val[val].add("not{%s}" % ",".join(str(x) for x in explicit))
+            else:
+                by_val[val].add(names.get(v, v) if names else v)
+        if ok:
+            return sym.operand(t["discr"]), by_val, sw
+    return None
